@@ -202,6 +202,9 @@ where
 
 fn main() {
     let args = parse_args();
+    if let Some(p) = &args.replay {
+        std::process::exit(vcore::replay::generic(p));
+    }
     silence_panics();
     let rep = Report::new("C06", &args);
     vcore::exact::self_check();
